@@ -10,8 +10,9 @@ CHECKS = {
                           "seeded search over schedules and configurations",
                 text="Seeded exploration of schedules (random and PCT, line/opcode pre-emption) x configurations "
                      "(6 backend flavours, n_jobs, batch_size incl. auto, pre_dispatch forms, list/generator, reuse) "
-                     "with an exact oracle (values, exactly-once, submission order, no deadlock/hang). Sampling, "
-                     "not proof: a clean batch is evidence.",
+                     "with an exact oracle (values, exactly-once, submission order, no deadlock/hang); in 12% of the runs a "
+                     "second thread calls the same object (half of them retrying until accepted): one call is refused, or "
+                     "both are accepted one after the other and both are judged. Sampling, not proof: a clean batch is evidence.",
                 note="Trusted: the E2 stub pools model the observable contract of ThreadPool / MemmappingPool / "
                      "loky executor / a public-API backend; switch points are line (sometimes opcode) boundaries "
                      "of joblib/parallel.py, _parallel_backends.py, _utils.py plus every simulated primitive."),
@@ -29,7 +30,8 @@ CHECKS = {
                           "iterator under seeded schedules, with task failure and generator close as faults",
                 text="Online monitors (re-entrancy, look-ahead bound independent of the input length, batches in "
                      "flight <= pre_dispatch, 'all' taken up front, no pull after abort/close) evaluated at every "
-                     "pull under seeded schedules; inputs up to 400 items so that an unbounded look-ahead shows.",
+                     "pull under seeded schedules; inputs up to 400 items so that an unbounded look-ahead shows; no item at all "
+                     "is taken once a task failure has been delivered; two calls in a row on one object.",
                 note="Same trusted base as C01. The bound (pre_dispatch + n_jobs) * batch size is derived from the "
                      "documented contract; the inline completion during the initial loop (F9b, repaired) is one "
                      "of the stamped causes."),
@@ -175,7 +177,8 @@ CHECKS = {
                      "the virtual clock (deadlock / hang verdicts of the engine otherwise), never wrong or partial results, "
                      "at most one failing call per kill, and following calls succeed with fresh workers; kill instants are "
                      "labelled from the victim's real Python stack (idle, receiving a call, running, pickling / sending "
-                     "the result incl. between chunks of a large message).",
+                     "the result incl. between chunks of a large message); victims die by signal or os._exit(n), n = 0 included; "
+                     "starting a worker of an executor whose queues are already closed fails as for a real process.",
                 note="The simulated OS is a model (checked against a real-process experiment for the F7 hang); workers "
                      "share one interpreter; kills fall between simulation yield points (pipe writes cut at 16 KiB chunks)."),
 }
